@@ -25,6 +25,7 @@ from vtlib.symnum import NP, Goals, SA, Sym, sym_array, tz
 
 # ------------------------------------------------------------------ tokens
 
+TOKEN_BASE = [101]   # first token value (a reader heuristic that looks at magnitudes sees the TOKEN: choose the base accordingly)
 TOK = {}        # token value -> z3 term
 _BY_ID = {}     # z3 term id -> token value
 
@@ -35,7 +36,7 @@ def _token(self):
         return float(e.numerator_as_long()) / float(e.denominator_as_long())
     k = e.get_id()
     if k not in _BY_ID:
-        v = float(101 + len(TOK))
+        v = float(TOKEN_BASE[0] + len(TOK))
         _BY_ID[k] = v
         TOK[v] = e
     return _BY_ID[k]
@@ -222,15 +223,16 @@ def writer(fmt: str = "gro", cell: str = "tri", n_atoms: int = 3, strict_box: bo
     S.new_ctx(timeout_ms=30000)
     TOK.clear()
     _BY_ID.clear()
+    TOKEN_BASE[0] = 7 if cell == "rhomb60" else 101      # rhomb60: every written number except the 60-degree angles stays below 60
     F = 1 if fmt == "rst7" else 2
     N = n_atoms
     X = sym_array("x", (F, N, 3))
     T = sym_array("t", (F,))
     Lh = sym_array("L", (F, 3)) if cell != "none" else None
-    ANG = {"ortho": [90.0, 90.0, 90.0], "tri": [80.0, 100.0, 70.0], "none": None}[cell]
+    ANG = {"ortho": [90.0, 90.0, 90.0], "tri": [80.0, 100.0, 70.0], "rhomb60": [60.0, 60.0, 60.0], "none": None}[cell]
     S.CTX.cons += [z3.And(tz(v) >= -90, tz(v) <= 90) for v in X.flat] + [z3.And(tz(v) >= 0, tz(v) <= 9000) for v in T.flat]
     if Lh is not None:
-        S.CTX.cons += [z3.And(tz(v) >= 1, tz(v) <= 90) for v in Lh.flat]
+        S.CTX.cons += [z3.And(tz(v) >= 1, tz(v) <= (59 if cell == "rhomb60" else 90)) for v in Lh.flat]
     inputs = {f"x{f}_{i}_{k}": X[f, i, k] for f in range(F) for i in range(N) for k in range(3)}
     inputs.update({f"t{f}": T[f] for f in range(F)})
     if Lh is not None:
@@ -385,9 +387,9 @@ def writer(fmt: str = "gro", cell: str = "tri", n_atoms: int = 3, strict_box: bo
                     _eq(G, f"{tag}own_reader.xyz[f{f}.{i}.{k}]", prem, term(back["xyz"][f, i, k]), X[f, i, k], inputs)
             if "time" in back:
                 _eq(G, f"{tag}own_reader.time[f{f}]", prem, None if back["time"] is None else term(back["time"][f]), T[f], inputs)
-            if cell != "none" and back.get("lengths") is not None and fmt in ("mdcrd", "rst7"):
+            if cell != "none" and fmt in ("mdcrd", "rst7"):
                 for k in range(3):
-                    _eq(G, f"{tag}own_reader.lengths[f{f}.{k}]", prem, term(back["lengths"][f, k]), Lh[f, k], inputs)
+                    _eq(G, f"{tag}own_reader.lengths[f{f}.{k}]", prem, None if back.get("lengths") is None else term(np.asarray(back["lengths"]).reshape(-1, 3)[f, k]), Lh[f, k], inputs)
             if cell != "none" and fmt == "gro":
                 for r in range(3):
                     for c in range(3):
@@ -505,7 +507,7 @@ xyz = np.array([[[vals.get("x%%d_%%d_%%d" %% (f, i, k), None) for k in range(3)]
 dflt = (np.arange(F * N * 3).reshape(F, N, 3) * 0.37 - 1.3) %% 4.1 - 1.0
 xyz = np.where(xyz == None, dflt, xyz).astype(np.float64)
 times = np.array([vals.get("t%%d" %% f) if vals.get("t%%d" %% f) is not None else [0.0, 0.5, 4.0][f] for f in range(F)], dtype=np.float64)
-ANG = {"ortho": [90.0, 90.0, 90.0], "tri": [80.0, 100.0, 70.0], "none": None}[cell]
+ANG = {"ortho": [90.0, 90.0, 90.0], "tri": [80.0, 100.0, 70.0], "rhomb60": [60.0, 60.0, 60.0], "none": None}[cell]
 L = None if cell == "none" else np.array([[vals.get("L%%d_%%d" %% (f, k)) or (2.0 + 0.5 * k + 0.25 * f) for k in range(3)] for f in range(F)])
 if L is not None: L = np.maximum(L, np.abs(xyz).max() * 0 + 1.0)
 if L is not None and fmt == "pdb": L[:] = L[0]                      # (a PDB file holds one CRYST1 record)
@@ -579,7 +581,7 @@ try:
         back = md.load(p, top=top) if fmt != "rst7" else md.load_restrt(p, top=top)
         if not np.allclose(back.xyz, t.xyz, atol=2e-4): bad.append("coordinates differ after save/load")
         if fmt == "rst7" and not np.allclose(back.time, times[:1], atol=1e-3): bad.append("time differs")
-        if L is not None and fmt in ("mdcrd", "rst7") and not np.allclose(back.unitcell_lengths, t.unitcell_lengths, atol=2e-4): bad.append("cell lengths differ")
+        if L is not None and fmt in ("mdcrd", "rst7") and (back.unitcell_lengths is None or not np.allclose(back.unitcell_lengths, t.unitcell_lengths, atol=2e-4)): bad.append("cell lengths differ / cell lost: %%s" %% (back.unitcell_lengths,))
 finally:
     shutil.rmtree(d, ignore_errors=True)
 for b in bad: print("MISMATCH", b)
